@@ -6,12 +6,13 @@ From FF Require Import Extracted.Src Model.Expected.
 Import ListNotations.
 Local Open Scope string_scope.
 
-(* bookkeeping: _concatenate_Hamiltonian with its two ValueErrors, the Hamiltonian-only concatenation with
+(* bookkeeping: _concatenate_Hamiltonian with its three ValueErrors (EOperIds, EDupIds, ENoInfer in the model), the Hamiltonian-only concatenation with
    its rejections, hashing of operators / bases / grids *)
 Example tie_C03_concatenate_hamiltonian :
   Src.h_pulse_sequence__concatenate_Hamiltonian = Expected.h_pulse_sequence__concatenate_Hamiltonian
   /\ raises_pulse_sequence__concatenate_Hamiltonian =
        [("ValueError", "any((len(value) > 1 for value in oper_to_identifier_mapping.values()))");
+        ("ValueError", "len(set(concat_identifiers)) != len(concat_identifiers)");
         ("ValueError", "not ((nonnan_coeff == nonnan_coeff[0]).all())")]
   /\ Src.h_util_hash_array_along_axis = Expected.h_util_hash_array_along_axis
   /\ Src.h_util_all_array_equal = Expected.h_util_all_array_equal.
